@@ -14,6 +14,8 @@
 using namespace gdstk;
 using sim::W;
 
+extern "C" uint64_t gdstk_verif_oas_buffer_size;
+
 namespace ex {
 
 // ================================================================= status page (crash attribution)
@@ -330,6 +332,7 @@ struct Exec {
         if (op.has("chunk")) knobs.chunk = (uint64_t)op.geti("chunk");
         if (op.has("fdlimit")) W->fs.fdlimit = (int)op.geti("fdlimit");
         if (op.has("heap_junk")) W->heap.junk = op.getb("heap_junk");
+        if (op.has("oas_buf")) gdstk_verif_oas_buffer_size = (uint64_t)op.geti("oas_buf");
         W->fs.policy = knobs;
     }
 
@@ -2268,6 +2271,7 @@ struct Exec {
         seed = plan.at("seed").as_hex();
         for (auto& m : plan.at("models").a) models.push_back(model::lib_from(m));
         W->begin_run(plan.at("heap_seed").as_hex());
+        gdstk_verif_oas_buffer_size = 0;
         if (plan.has("clock")) W->clock.now = W->clock.start = plan.geti("clock");
         W->trace.verbose = opt.verbose;
         W->trace.out = opt.trace_out;
